@@ -676,6 +676,8 @@ macro_rules! impl_graph_traits {
                 &mut self,
                 n: <$graph_type<N, E, Ix> as GraphBase>::NodeId,
             ) -> Option<N> {
+                // Nothing to do - and nothing to disturb - if `n` is not a node.
+                self.graph.node_weight(n)?;
                 self.order_map.remove_node(n, &self.graph);
                 self.graph.remove_node(n)
             }
